@@ -80,6 +80,7 @@ static int32_t do_sync_op(struct jls_wr_s *wr, const Op &o) {
         case OP_FSR: {
             std::vector<uint8_t> data; op_payload(o, data);
             ExactBuf b(data, fsr_bytes_sig(o.sig, o.dtype, o.n));
+            if (o.dtype == DT_F32 && (o.gs & 2) && widest_bits(o.sig, o.dtype) == 32) return jls_wr_fsr_f32(wr, (uint16_t) o.sig, o.a, (const float *) b.p, (uint32_t) o.n);     // the typed convenience entry point
             return jls_wr_fsr(wr, (uint16_t) o.sig, o.a, b.p, (uint32_t) o.n);
         }
         case OP_OMIT: return jls_wr_fsr_omit_data(wr, (uint16_t) o.sig, (uint32_t) o.en);
@@ -162,6 +163,7 @@ static int32_t do_twr_op(struct jls_twr_s *wr, const Op &o) {
         case OP_FSR: {
             std::vector<uint8_t> data; op_payload(o, data);
             ExactBuf b(data, fsr_bytes_sig(o.sig, o.dtype, o.n));
+            if (o.dtype == DT_F32 && (o.gs & 2) && widest_bits(o.sig, o.dtype) == 32) return jls_twr_fsr_f32(wr, (uint16_t) o.sig, o.a, (const float *) b.p, (uint32_t) o.n);
             return jls_twr_fsr(wr, (uint16_t) o.sig, o.a, b.p, (uint32_t) o.n);
         }
         case OP_OMIT: return jls_twr_fsr_omit_data(wr, (uint16_t) o.sig, (uint32_t) o.en);
